@@ -214,8 +214,19 @@ def run_table(case):
             # transaction must follow the new defaults
             req = w.S.h.get_put_request()
             flip_mode = "unack" if case["mm"] == "ack" else "ack"
-            w.rc_dst_at_src.default_transmission_mode = MODES[flip_mode]
-            w.rc_dst_at_src.closure_requested = not case["mc"]
+            if case["crc"]:
+                # (half of the cells) the user *replaces* the entry of this destination in the table by a new configuration object
+                import dataclasses
+
+                newcfg = dataclasses.replace(w.rc_dst_at_src, default_transmission_mode=MODES[flip_mode], closure_requested=not case["mc"])
+                w.S.h.remote_cfg_table.add_config(newcfg)
+                if w.S.h.remote_cfg_table.get_cfg(w.dst_id) is not newcfg:
+                    viol.append({"clause": "harness-could-not-replace-mib-entry"})
+                w.rc_dst_at_src = newcfg
+                obs["mib_entry_replaced_between_requests"] = 1
+            else:
+                w.rc_dst_at_src.default_transmission_mode = MODES[flip_mode]
+                w.rc_dst_at_src.closure_requested = not case["mc"]
             want_mode2 = case["rm"] if case["rm"] is not None else flip_mode
             want_closure2 = case["rc"] if case["rc"] is not None else (not case["mc"])
             mark = len(w.log.events)
@@ -523,5 +534,5 @@ def exhaustive(tier):
     return False
 
 
-REQUIRED = {"segment_length_after_mib_change_checked": 200, "table_cells": 432, "puts_on_busy_handler": 100, "traces_equal_to_reference": 100, "invalid_sequences": 20, "reuse_traces_equal_to_reference": 10,
+REQUIRED = {"mib_entry_replaced_between_requests": 50, "segment_length_after_mib_change_checked": 200, "table_cells": 432, "puts_on_busy_handler": 100, "traces_equal_to_reference": 100, "invalid_sequences": 20, "reuse_traces_equal_to_reference": 10,
             "documented_errors_SourceFileDoesNotExist": 10, "documented_errors_NoRemoteEntityCfgFound": 10, "seq_runs": 50, "transactions_started": 200, "reused_request_objects_checked": 100, "top_of_sequence_number_range_reached": 3}
